@@ -6,7 +6,7 @@ Require Import MayV.Sync.ChanMpmcTac.
 Lemma filter_snoc {X} (f : X -> bool) l x : filter f (l ++ [x]) = filter f l ++ (if f x then [x] else []).
 Proof. rewrite filter_app. reflexivity. Qed.
 
-Lemma pres_acc s ac s' : Inv s -> step true true s ac = Some s' -> sent s' = map snd (rlog s') ++ drpd s' ++ q s'.
+Lemma pres_acc c s ac s' : Inv s -> step true true c s ac = Some s' -> sent s' = map snd (rlog s') ++ drpd s' ++ q s'.
 Proof.
   intros Hi H. pose proof (I_acc _ Hi) as P. pose proof (I_drpd _ Hi) as P1.
   step_cases H; boolh; unf; prj; auto.
@@ -16,7 +16,7 @@ Proof.
   all: rewrite P, ?map_app; cbn [map snd app]; rewrite ?app_nil_r, <- ?app_assoc; cbn [app]; auto.
 Qed.
 
-Lemma pres_drpd s ac s' : Inv s -> step true true s ac = Some s' -> rxp s' <> 0 -> drpd s' = [].
+Lemma pres_drpd c s ac s' : Inv s -> step true true c s ac = Some s' -> rxp s' <> 0 -> drpd s' = [].
 Proof.
   intros Hi H. pose proof (I_drpd _ Hi) as P.
   step_cases H; boolh; unf; prj; auto; try (intros; apply P; lia).
@@ -25,7 +25,7 @@ Proof.
   all: intros; apply P; auto.
 Qed.
 
-Lemma pres_ord s ac s' : Inv s -> step true true s ac = Some s' -> forall a, filter (from a) (sent s') = map (pair a) (seq 0 (sn (Sd s' a))).
+Lemma pres_ord c s ac s' : Inv s -> step true true c s ac = Some s' -> forall a, filter (from a) (sent s') = map (pair a) (seq 0 (sn (Sd s' a))).
 Proof.
   intros Hi H a0. pose proof (I_ord _ Hi a0) as P.
   step_cases H; boolh; unf; prj; auto; upd_tac; prj; auto.
